@@ -549,4 +549,393 @@ theorem step_inv (cfg : Cfg) (f : Forest) (n : Bool) (op : Op) (hi : Inv f) (hk 
         · exact fun _ => hi
         · exact fun _ => clearAndNotify_inv cfg f n t m its hi hfind
 
+/-! ### the Bool checker `Forest.wf` and the propositional invariant -/
+
+theorem nodupNat_iff : (l : List Nat) → (nodupNat l = true ↔ l.Nodup)
+  | [] => by simp [nodupNat]
+  | x :: xs => by
+    simp only [nodupNat, Bool.and_eq_true, Bool.not_eq_true', List.contains_eq_mem, decide_eq_false_iff_not,
+      List.nodup_cons, nodupNat_iff xs]
+
+theorem wf_iff (f : Forest) : f.wf = true ↔ (f.ok = true ∧ Inv f ∧ f.aliased = false ∧ f.pool = []) := by
+  unfold Forest.wf Forest.ok
+  simp only [Bool.and_eq_true, Bool.not_eq_true', List.isEmpty_iff]
+  constructor
+  · rintro ⟨⟨⟨⟨⟨hok, hnd⟩, hsh⟩, hb⟩, hal⟩, hp⟩
+    refine ⟨hok, ⟨⟨?_, ?_⟩, ⟨?_, ?_⟩⟩, hal, hp⟩
+    · rw [nodupNat_iff, List.nodup_iff_count] at hnd
+      exact hnd
+    · intro i hi
+      rw [List.count_eq_zero]
+      intro hmem
+      rw [List.all_eq_true] at hb
+      have := hb i hmem
+      simp only [decide_eq_true_eq] at this
+      omega
+    · rw [List.all_eq_true] at hsh; exact hsh
+    · intro r hr; rw [hp] at hr; cases hr
+  · rintro ⟨hok, ⟨⟨hnd, hb⟩, ⟨hsh, _⟩⟩, hal, hp⟩
+    refine ⟨⟨⟨⟨⟨hok, ?_⟩, ?_⟩, ?_⟩, hal⟩, hp⟩
+    · rw [nodupNat_iff, List.nodup_iff_count]; exact hnd
+    · rw [List.all_eq_true]; exact hsh
+    · rw [List.all_eq_true]
+      intro i hmem
+      simp only [decide_eq_true_eq]
+      have h1 := count_pos_of_mem hmem
+      cases Nat.lt_or_ge i f.nextId with
+      | inl h => exact h
+      | inr h => have := hb i h; omega
+
+theorem stepN_inv (cfg : Cfg) (f : Forest) (n : Bool) (op : Op) (hi : Inv f) (hk : wellKeyed op = true)
+    (hal : (stepN cfg f n op).forest.aliased = false) : Inv (stepN cfg f n op).forest := by
+  unfold stepN at hal ⊢
+  exact normalizeRoots_inv f _ _ hi.nb (step_inv cfg f n op hi hk hal)
+
+theorem stepA_inv (cfg : Cfg) (f : Forest) (n : Bool) (op : Op) (hi : Inv f) (hk : wellKeyed op = true)
+    (hal : (stepA cfg f n op).forest.aliased = false) : Inv (stepA cfg f n op).forest := by
+  unfold stepA at hal ⊢
+  split
+  · exact hi
+  · next hd => rw [if_neg hd] at hal; exact stepN_inv cfg f n op hi hk hal
+
+theorem stepA_pool (cfg : Cfg) (f : Forest) (n : Bool) (op : Op) (hp : f.pool = []) : (stepA cfg f n op).forest.pool = [] := by
+  unfold stepA
+  split
+  · exact hp
+  · rfl
+
+/-! ### the mark `aliased` is never cleared -/
+
+theorem step_rise (cfg : Cfg) (f : Forest) (n : Bool) (op : Op) (ha : f.aliased = true) :
+    (step cfg f n op).forest.aliased = true := by
+  cases op with
+  | new v =>
+    cases v with
+    | node kind sl aw pt items =>
+      simp only [step]
+      rw [addRoot_aliased]
+      exact (evalVE_mono cfg none _ f none false false []).aliased ha
+    | atom a => simp only [step]; exact ha
+    | fresh => simp only [step]; exact ha
+    | freshTuple k => simp only [step]; exact ha
+    | mkRef tg => simp only [step]; exact ha
+    | typedList items => simp only [step]; exact ha
+    | ref id => simp only [step]; exact ha
+  | clone t deep =>
+    cases hfind : f.find? t with
+    | none => simp only [step, hfind]; exact ha
+    | some tr => simp only [step, hfind]; exact ha
+  | setItem t k v =>
+    cases hfind : f.find? t with
+    | none => simp only [step, hfind]; exact ha
+    | some tr =>
+      cases tr with
+      | leaf a => simp only [step, hfind]; exact ha
+      | node m its => simp only [step, hfind]; exact setItem_rise cfg f n m its k v ha
+  | lAppend t v =>
+    cases hfind : f.find? t with
+    | none => simp only [step, hfind]; exact ha
+    | some tr =>
+      cases tr with
+      | leaf a => simp only [step, hfind]; exact ha
+      | node m its =>
+        simp only [step, hfind]
+        split
+        · exact ha
+        · exact finish_rise f n _ _ (rawSetList_rise cfg f m its _ false v) ha
+  | lInsert t idx v =>
+    cases hfind : f.find? t with
+    | none => simp only [step, hfind]; exact ha
+    | some tr =>
+      cases tr with
+      | leaf a => simp only [step, hfind]; exact ha
+      | node m its =>
+        simp only [step, hfind]
+        split
+        · exact ha
+        · exact finish_rise f n _ _ (rawSetList_rise cfg f m its _ true v) ha
+  | lExtend t vs =>
+    cases hfind : f.find? t with
+    | none => simp only [step, hfind]; exact ha
+    | some tr =>
+      cases tr with
+      | leaf a => simp only [step, hfind]; exact ha
+      | node m its =>
+        simp only [step, hfind]
+        split
+        · exact ha
+        · exact finish_rise f n _ _ (extendLoop_rise cfg t vs f false) ha
+  | lIMul t k =>
+    cases hfind : f.find? t with
+    | none => simp only [step, hfind]; exact ha
+    | some tr =>
+      cases tr with
+      | leaf a => simp only [step, hfind]; exact ha
+      | node m its =>
+        simp only [step, hfind]
+        split
+        · split
+          · exact ha
+          · rw [clearAndNotify_aliased]; exact ha
+        · split
+          · exact ha
+          · exact finish_rise f n _ _ (extendLoop_rise cfg t _ f false) ha
+  | lSetSlice t a b c vs =>
+    cases hfind : f.find? t with
+    | none => simp only [step, hfind]; exact ha
+    | some tr =>
+      cases tr with
+      | leaf a => simp only [step, hfind]; exact ha
+      | node m its =>
+        simp only [step, hfind]
+        split
+        · exact ha
+        · split
+          · exact ha
+          · split
+            · exact ha
+            · have hp := slicePrepare_rise cfg m vs f 0 ha
+              have run_rise : ∀ (st sp : Int) (repl : List (Bool × VE)),
+                  (match sliceLoop cfg t st sp (slicePrepare cfg m f 0 vs).1 0 repl false with
+                    | .error e => (⟨(slicePrepare cfg m f 0 vs).1, .err e⟩ : Res)
+                    | .ok (f', upd) => ⟨if (n && upd) = true then notify f' [m.id] else f', .ok⟩).forest.aliased = true := by
+                intro st sp repl
+                split
+                · exact hp
+                · next f' upd heq =>
+                  have := sliceLoop_rise cfg t st sp repl _ 0 false (f', upd) heq hp
+                  simp only
+                  split
+                  · rw [notify_aliased]; exact this
+                  · exact this
+              split
+              · exact run_rise _ _ _
+              · split
+                · exact hp
+                · split
+                  · exact run_rise _ _ _
+                  · exact run_rise _ _ _
+  | dSetDefault t k v =>
+    cases hfind : f.find? t with
+    | none => simp only [step, hfind]; exact ha
+    | some tr =>
+      cases tr with
+      | leaf a => simp only [step, hfind]; exact ha
+      | node m its =>
+        simp only [step, hfind]
+        split
+        · exact ha
+        · exact setItem_rise cfg f n m its k v ha
+  | dUpdate t kvs =>
+    cases hfind : f.find? t with
+    | none => simp only [step, hfind]; exact ha
+    | some tr =>
+      cases tr with
+      | leaf a => simp only [step, hfind]; exact ha
+      | node m its => simp only [step, hfind]; exact doRebind_rise cfg f n t m _ _ _ ha
+  | rebind t pairs skip =>
+    cases hfind : f.find? t with
+    | none => simp only [step, hfind]; exact ha
+    | some tr =>
+      cases tr with
+      | leaf a => simp only [step, hfind]; exact ha
+      | node m its => simp only [step, hfind]; exact doRebind_rise cfg f n t m _ _ _ ha
+  | lDelSlice t a b c =>
+    cases hfind : f.find? t with
+    | none => simp only [step, hfind]; exact ha
+    | some tr =>
+      cases tr with
+      | leaf a => simp only [step, hfind]; exact ha
+      | node m its =>
+        simp only [step, hfind]
+        split
+        · exact ha
+        · split
+          · exact ha
+          · split
+            · exact ha
+            · split
+              · exact ha
+              · have h1 : ∀ ps, (rawDelMany cfg f m its ps).aliased = true := by
+                  intro ps; unfold rawDelMany; simp only; rw [addRoots_aliased]; exact ha
+                split
+                · rw [notify_aliased]; exact h1 _
+                · exact h1 _
+  | setSeal t flag =>
+    cases hfind : f.find? t with
+    | none => simp only [step, hfind]; exact ha
+    | some tr =>
+      cases tr with
+      | leaf a => simp only [step, hfind]; exact ha
+      | node m its => simp only [step, hfind]; exact ha
+  | delItem t k =>
+    cases hfind : f.find? t with
+    | none => simp only [step, hfind]; exact ha
+    | some tr =>
+      cases tr with
+      | leaf a => simp only [step, hfind]; exact ha
+      | node m its =>
+        simp only [step, hfind]
+        cases hkind : m.kind with
+        | dict => exact delItemDict_rise cfg f n m its k false ha
+        | list =>
+          cases k with
+          | s _ => exact ha
+          | i idx => simp only; rw [delItemList_aliased]; exact ha
+        | obj c => exact ha
+  | lPop t idx =>
+    cases hfind : f.find? t with
+    | none => simp only [step, hfind]; exact ha
+    | some tr =>
+      cases tr with
+      | leaf a => simp only [step, hfind]; exact ha
+      | node m its =>
+        simp only [step, hfind]
+        split
+        · exact ha
+        · rw [delItemList_aliased]; exact ha
+  | lRemove t a =>
+    cases hfind : f.find? t with
+    | none => simp only [step, hfind]; exact ha
+    | some tr =>
+      cases tr with
+      | leaf a => simp only [step, hfind]; exact ha
+      | node m its =>
+        simp only [step, hfind]
+        split
+        · rw [delItemList_aliased]; exact ha
+        · exact ha
+  | lClear t =>
+    cases hfind : f.find? t with
+    | none => simp only [step, hfind]; exact ha
+    | some tr =>
+      cases tr with
+      | leaf a => simp only [step, hfind]; exact ha
+      | node m its =>
+        simp only [step, hfind]
+        split
+        · exact ha
+        · rw [clearAndNotify_aliased]; exact ha
+  | lSort t ranks rev =>
+    cases hfind : f.find? t with
+    | none => simp only [step, hfind]; exact ha
+    | some tr =>
+      cases tr with
+      | leaf a => simp only [step, hfind]; exact ha
+      | node m its =>
+        simp only [step, hfind]
+        split
+        · exact ha
+        · rw [permuteAndNotify_aliased]; exact ha
+  | lReverse t =>
+    cases hfind : f.find? t with
+    | none => simp only [step, hfind]; exact ha
+    | some tr =>
+      cases tr with
+      | leaf a => simp only [step, hfind]; exact ha
+      | node m its =>
+        simp only [step, hfind]
+        split
+        · exact ha
+        · rw [permuteAndNotify_aliased]; exact ha
+  | dPop t k =>
+    cases hfind : f.find? t with
+    | none => simp only [step, hfind]; exact ha
+    | some tr =>
+      cases tr with
+      | leaf a => simp only [step, hfind]; exact ha
+      | node m its =>
+        simp only [step, hfind]
+        split
+        · split
+          · exact delItemDict_rise cfg f n m its k true ha
+          · exact ha
+        · exact ha
+  | dPopItem t =>
+    cases hfind : f.find? t with
+    | none => simp only [step, hfind]; exact ha
+    | some tr =>
+      cases tr with
+      | leaf a => simp only [step, hfind]; exact ha
+      | node m its =>
+        simp only [step, hfind]
+        split
+        · exact ha
+        split
+        · exact ha
+        · split
+          · exact ha
+          · simp only
+            split
+            · rw [notify_aliased, addRoot_aliased]; exact ha
+            · rw [addRoot_aliased]; exact ha
+  | dClear t =>
+    cases hfind : f.find? t with
+    | none => simp only [step, hfind]; exact ha
+    | some tr =>
+      cases tr with
+      | leaf a => simp only [step, hfind]; exact ha
+      | node m its =>
+        simp only [step, hfind]
+        split
+        · exact ha
+        · rw [clearAndNotify_aliased]; exact ha
+
+theorem stepA_rise (cfg : Cfg) (f : Forest) (n : Bool) (op : Op) (ha : f.aliased = true) :
+    (stepA cfg f n op).forest.aliased = true := by
+  unfold stepA
+  split
+  · exact ha
+  · unfold stepN
+    rw [normalizeRoots_aliased]
+    exact step_rise cfg f n op ha
+
+theorem repOk_iff (f : Forest) : f.repOk = true ↔ (Inv f ∧ f.pool = []) := by
+  unfold Forest.repOk
+  simp only [Bool.and_eq_true, List.isEmpty_iff]
+  constructor
+  · rintro ⟨⟨⟨hnd, hsh⟩, hb⟩, hp⟩
+    refine ⟨⟨⟨?_, ?_⟩, ⟨?_, ?_⟩⟩, hp⟩
+    · rw [nodupNat_iff, List.nodup_iff_count] at hnd
+      exact hnd
+    · intro i hi
+      rw [List.count_eq_zero]
+      intro hmem
+      rw [List.all_eq_true] at hb
+      have := hb i hmem
+      simp only [decide_eq_true_eq] at this
+      omega
+    · rw [List.all_eq_true] at hsh; exact hsh
+    · intro r hr; rw [hp] at hr; cases hr
+  · rintro ⟨⟨⟨hnd, hb⟩, ⟨hsh, _⟩⟩, hp⟩
+    refine ⟨⟨⟨?_, ?_⟩, ?_⟩, hp⟩
+    · rw [nodupNat_iff, List.nodup_iff_count]; exact hnd
+    · rw [List.all_eq_true]; exact hsh
+    · rw [List.all_eq_true]
+      intro i hmem
+      simp only [decide_eq_true_eq]
+      have h1 := count_pos_of_mem hmem
+      cases Nat.lt_or_ge i f.nextId with
+      | inl h => exact h
+      | inr h => have := hb i h; omega
+
+/-! ### histories -/
+
+theorem runHist_append (cfg : Cfg) : (a b : List (Bool × Op)) → ∀ f, runHist cfg f (a ++ b) = runHist cfg (runHist cfg f a) b
+  | [], _, _ => rfl
+  | (n, op) :: a, b, f => by simp only [List.cons_append, runHist]; exact runHist_append cfg a b _
+
+theorem runHist_rise (cfg : Cfg) : (hist : List (Bool × Op)) → ∀ f, f.aliased = true → (runHist cfg f hist).aliased = true
+  | [], _, ha => ha
+  | (n, op) :: rest, f, ha => by
+    simp only [runHist]
+    exact runHist_rise cfg rest _ (stepA_rise cfg f n op ha)
+
+theorem runHist_prefix_unal (cfg : Cfg) (f : Forest) (hist : List (Bool × Op)) (k : Nat)
+    (h : (runHist cfg f hist).aliased = false) : (runHist cfg f (hist.take k)).aliased = false := by
+  have := runHist_append cfg (hist.take k) (hist.drop k) f
+  rw [List.take_append_drop] at this
+  rw [this] at h
+  exact unal_of_rise (runHist_rise cfg (hist.drop k) _) h
+
 end Pg.Sym
